@@ -181,16 +181,48 @@ def check_multi(ctx, rng):
     return None
 
 
+COLLIDE = [("alw", "G"), ("ev", "F"), ("prev", "Y"), ("next", "X"), ("once", "O"), ("hist", "H"), ("sprev", "sY"), ("snext", "sX")]
+
+
+def gen_collide(rng):
+    """A prefix operator applied to the bare variable `a` next to a signal whose name is the alias glued to `a` (`G a` and `Ga`),
+    or `a U b` / `a S b` next to a signal `aUb` / `aSb`, or `not a` / `! a` next to `nota`."""
+    k = rng.random()
+    if k < 0.7:
+        op, al = rng.choice(COLLIDE)
+        t, name = ("t1", op, ("v", "a")), al + "a"
+    elif k < 0.85:
+        op, al = rng.choice([("until", "U"), ("since", "S")])
+        t, name = ("t2", op, ("v", "a"), ("v", "b")), "a" + al + "b"
+    else:
+        t, name = ("u", "not", ("v", "a")), "nota"
+    other = ("b", rng.choice(F.CMP), ("v", name), ("c", rng.choice([0.0, 1.0, 2.0])))
+    if t[0] != "u" and rng.random() < 0.5:
+        t = ("b", rng.choice(F.CMP), t, ("c", rng.choice([0.0, 1.0, 3.0])))
+    f = ("b", rng.choice(["and", "or", "implies"]), t, other) if rng.random() < 0.5 else ("b", rng.choice(["and", "or"]), other, t)
+    return f
+
+
 def explore(ctx, rng, count):
     for i in range(count):
-        if i % 5 == 3:
+        if i % 7 == 6:
+            f = gen_collide(rng)
+            n = rng.randint(2, 8)
+            data = F.gen_trace(rng, F.variables(f), n)
+            ctx.count("gen:name-collision")
+            v, d = check_case(ctx, f, data, n, rng)
+        elif i % 5 == 3:
             v, d = check_multi(ctx, rng), None
         elif i % 5 == 4:
             ctx.evaluations += 1
             ctx.count("unless-sugar")
             v, d = check_unless(ctx, rng), None
         else:
-            g = F.Gen(rng, VARS, F.ALL_DISCRETE_OFFLINE - {"fn"}, max_bound=3)
+            vs_ = VARS
+            if rng.random() < 0.35:
+                # signal names that read like "alias + operand" once blanks are dropped (Ga ~ G a, aUb ~ a U b, nota ~ not a)
+                vs_ = ["a", "b", rng.choice(["Ga", "Fa", "Ya", "Xb", "Oa", "Hb", "sYa", "sXb", "aUb", "aSb", "nota", "alwaysa", "Gb", "Yb"])]
+            g = F.Gen(rng, vs_, F.ALL_DISCRETE_OFFLINE - {"fn"}, max_bound=3)
             f = g.formula(rng.choice([1, 2, 3, 4])) if rng.random() < 0.85 else g.untyped(3)
             n = rng.randint(1, 8)
             data = F.gen_trace(rng, F.variables(f) or ["a"], n)
